@@ -118,3 +118,35 @@ def M(obj, meth, *args, **kw):
 
 def MODE(name):
     return ["mode", name]
+
+
+def world_program(chk, plan, subcases, wid, on_ok=None, extra_pre=None):
+    """One isolated program: the declarations of `plan`, then the steps of
+    every subcase (steps, judge(obs)).  If a declaration the model considers
+    valid is rejected, the world is skipped (that is C15's business)."""
+    from .gen import plan_steps
+    steps = list(extra_pre or []) + plan_steps(plan)
+    index = []
+    for j, (st, judge) in enumerate(subcases):
+        pre = "s%d." % j
+        steps.extend(_prefix(st, pre))
+        index.append((pre, judge))
+
+    def judge_all(obs, rec, case):
+        if obs is None:
+            chk.inconclusive_because("world %s died: %s" %
+                                     (wid, rec.get("died")))
+            return
+        failed = [k for k in obs if k[0] == "d" and k[1:].isdigit() and
+                  obs[k].get("k") == "E"]
+        if failed:
+            chk.count("world-skipped|valid-declaration-rejected (C15's)")
+            return
+        chk.count("worlds")
+        if on_ok:
+            on_ok()
+        for pre, judge in index:
+            sub = {k[len(pre):]: v for k, v in obs.items()
+                   if k.startswith(pre)}
+            judge(sub)
+    return Case(steps, judge_all, isolate=True)
